@@ -523,6 +523,15 @@ class Runner:
             def upd(ret):
                 self.adopt_new_keys(idm, expect=1, what=f'new_key({IDN[letter]})', kind=kind, returned=ret)
             return f'{verb}({IDN[letter]})', call, (None if idm is not None else KeyError), upd
+        if verb == 'newkey_id':
+            # a key with a caller-chosen id (the same id every time: after a deletion the NAME comes back with a new key)
+            if idm is not None and any(bytes(Name.from_bytes(k.name)[-1]) == b'\x08\x04KID1' for k in idm.keys):
+                return None
+
+            def upd(ret):
+                self.adopt_new_keys(idm, expect=1, what=f'new_key({IDN[letter]}, key_id=KID1)', kind='ec', returned=ret)
+            return (f'new_key({IDN[letter]}, key_id=KID1)', (lambda: w.kc.new_key(idname, key_id=b'\x08\x04KID1')),
+                    (None if idm is not None else KeyError), upd)
         if verb == 'newkey_dup':
             # new_key with an explicit key id that names an EXISTING key: refused, and the existing key (its private key
             # included - the audit signs with every listed key) is left as it was
@@ -670,6 +679,9 @@ class Runner:
             if len(km.certs) != 1:
                 self.v.append(('C15:new-key-without-self-signed-cert', f'{what}: new key {Name.to_str(kn)} has {len(km.certs)} certificate(s)'))
             idm.keys.append(km)
+            # a NAME that belonged to a deleted key is alive again (another key under the same name): it is no longer "deleted"
+            self.m.dead_keys = [(n_, c_) for n_, c_ in self.m.dead_keys if n_ != kn]
+            self.m.dead_certs = [(c_, k_) for c_, k_ in self.m.dead_certs if k_ != kn and c_ not in {x.name for x in km.certs}]
         if returned is not None and new and nb(returned.name) not in new:
             self.v.append(('C15:new-key-returns-wrong-key', f'{what}: returned {Name.to_str(returned.name)}'))
 
@@ -982,6 +994,9 @@ DIRECTED = (
     ['touch:c', 'sign:cert:c', 'sign:certobj:c', 'sign:certname:c', 'sign:key:c', 'sign:id:c'],
     ['touch:a', 'touch:c', 'newkey:c', 'import:c', 'sign:cert:c', 'reopen', 'sign:certname:c', 'delkey:c:default', 'sign:id:c'],
     ['touch:c', 'touch:a', 'sign:default', 'setdef_id:a', 'sign:cert:c', 'delid:c', 'sign:default'],
+    ['touch:a', 'newkey_id:a', 'setdef_key:a', 'sign:key:a', 'delkey:a:default', 'newkey_id:a', 'setdef_key:a', 'sign:key:a',
+     'sign:cert:a', 'reopen', 'sign:key:a'],
+    ['touch:a', 'newkey_id:a', 'delkey:a:other', 'newkey_id:a', 'setdef_key:a', 'sign:id:a', 'sign:keyobj:a'],
     ['touch:a', 'newkey_dup:a', 'sign:key:a', 'reopen', 'sign:key:a', 'sign:id:a'],
     ['touch:a', 'newkey:a', 'newkey_dup:a', 'reopen', 'sign:key:a', 'delkey:a:default', 'sign:id:a'],
     ['touch:a', 'touch:b', 'setdef_stale:a:id', 'sign:default', 'reopen', 'sign:default'],
